@@ -224,7 +224,9 @@ func (m *Machine) Explore(body func(m *Machine) Value, onPath func(m *Machine, r
 		if r.Outcome == OutUnsupported {
 			m.Stats.Unsupported[r.Msg]++
 		}
-		if onPath != nil {
+		// a path ended by a stated assumption (or a template constraint) that contradicts its
+		// path condition denotes no input: it is counted in ByOutcome and not reported
+		if onPath != nil && r.Outcome != OutInfeasible {
 			onPath(m, r)
 		}
 		m.inPath = false
